@@ -490,7 +490,7 @@ func genC07Row(r *common.Rng) c07Row {
 	return row
 }
 
-var cuuRe = regexp.MustCompile(`\x1b\[[0-9]+A\x1b\[J`)
+var cuuRe = regexp.MustCompile(`\x1b\[[0-9]+[AF]\x1b\[0?J`)
 
 // c07DefaultWidth: the width the library gives a row when the output is not a
 // terminal and no width was requested. It is not documented, so it is measured
